@@ -85,6 +85,40 @@ func checkC12(c *Ctx) (string, []string) {
 		c12Minimality(c, f)
 	}
 	c12Encoders(c)
+	// sibling agreement: the PVM reader is the protocol decoder with a different error channel
+	c.Rule("C12.siblings", "PVM.ReadUintVariable and types.Decoder.DecodeUint are the same decoder: after renaming the data parameter, their sets of branch conditions and the expressions of the values they return are identical (a fast path, mask or bound changed in one copy only is a difference)", 2)
+	{
+		a := c.Fn("internal/types", "Decoder.DecodeUint")
+		b := c.Fn("PVM", "ReadUintVariable")
+		if a != nil && b != nil {
+			oa := shapeOpts
+			oa.swap = [2]int{0, 1}
+			conds := func(f *ssa.Function, o exprOpts) []string {
+				set := map[string]bool{}
+				allInstrs(f, func(in ssa.Instruction) {
+					if i, ok := in.(*ssa.If); ok {
+						set[exprStr(i.Cond, o)] = true
+					}
+				})
+				return keysOf(set)
+			}
+			vals := func(f *ssa.Function, o exprOpts) []string {
+				set := map[string]bool{}
+				allInstrs(f, func(in ssa.Instruction) {
+					if r, ok := in.(*ssa.Return); ok {
+						if rr := retResults(r); len(rr) > 0 {
+							set[exprStr(rr[0], o)] = true
+						}
+					}
+				})
+				return keysOf(set)
+			}
+			ca, cb := conds(a, oa), conds(b, shapeOpts)
+			c.Check(strings.Join(ca, " ; ") == strings.Join(cb, " ; "), "C12.siblings", "types.DecodeUint ~ PVM.ReadUintVariable · conditions", b.Pos(), fmt.Sprintf("%d identical branch conditions", len(ca)), fmt.Sprintf("branch conditions differ: only in DecodeUint %v ;; only in ReadUintVariable %v", abbrAll(diffStrings(ca, cb)), abbrAll(diffStrings(cb, ca))))
+			va, vb := vals(a, oa), vals(b, shapeOpts)
+			c.Check(strings.Join(va, " ; ") == strings.Join(vb, " ; "), "C12.siblings", "types.DecodeUint ~ PVM.ReadUintVariable · values", b.Pos(), fmt.Sprintf("%d identical returned value expressions", len(va)), fmt.Sprintf("returned values differ: only in DecodeUint %v ;; only in ReadUintVariable %v", abbrAll(diffStrings(va, vb)), abbrAll(diffStrings(vb, va))))
+		}
+	}
 	return "Natural-number codec mechanisms decided statically over the five implementations (protocol codec, legacy serializer, PVM reader, telemetry, fuzz): every index/slice of the input in the decoders is proven in bounds by a linear-arithmetic argument from the dominating length comparisons (truncated input cannot be read past its end, and is rejected by those comparisons); every multi-byte success return is guarded by the minimality lower bound (2^(7l), 2^56 for the 0xFF form); the encoders select the 9-byte form exactly from 2^56 (explicit threshold, or a search loop over l = 0..7 with the range test 2^(7l) <= x < 2^(7(l+1))) and build the prefix as 256 - 2^(8-l) + floor(x / 2^(8l)).",
 		[]string{"go/ssa; linear bounds prover (dominating comparisons, rotated-loop phi facts, field-load versions, pure-getter inlining)", "not decided: bijection on all 2^64 values, agreement of the emitted remainder bytes (little-endian order) beyond the shared helper calls"}
 }
@@ -449,4 +483,19 @@ func dumpConds(f *ssa.Function) {
 	for _, s := range condShapes(f) {
 		fmt.Printf("COND %s | %s\n", funcKey(f), s)
 	}
+}
+
+
+func diffStrings(a, b []string) []string {
+	in := map[string]bool{}
+	for _, x := range b {
+		in[x] = true
+	}
+	var out []string
+	for _, x := range a {
+		if !in[x] {
+			out = append(out, x)
+		}
+	}
+	return out
 }
